@@ -1318,6 +1318,10 @@ class Expression(Expr):
                     errors = []
                 errors.append(f"Required keyword: '{k}' missing for {self.__class__}")
 
+        if errors and len(errors) > 1:
+            # required_args is a set of strings: its iteration order depends on PYTHONHASHSEED
+            errors.sort()
+
         if (
             args
             and isinstance(self, Func)
